@@ -30,7 +30,7 @@ cmp -s $B/C07Table.v.new $V/coq/gen/C07Table.v || cp $B/C07Table.v.new $V/coq/ge
 
 # 3. extraction + OCaml driver
 mkdir -p $V/ocaml/extracted
-if [ ! -f $B/extract.stamp ] || [ -n "$(find $V/coq -name '*.vo' -newer $B/extract.stamp | head -1)" ]; then
+if [ ! -f $B/extract.stamp ] || [ $V/coq/Extract/Extract.v -nt $B/extract.stamp ] || [ -n "$(find $V/coq -name '*.vo' -newer $B/extract.stamp | head -1)" ]; then
   ( cd $V/ocaml/extracted && find . -name '*.ml' -delete && find . -name '*.mli' -delete && timeout 600 coqc -Q $V/coq Verif $V/coq/Extract/Extract.v ) >>$log 2>&1 || fail extraction
   touch $B/extract.stamp
 fi
